@@ -20,6 +20,7 @@ Binding:
 from __future__ import annotations
 
 import copy
+import os
 import hashlib
 import json
 import random
@@ -30,7 +31,8 @@ from typing import Any, Callable, Dict, List, Optional, Tuple
 import torch
 
 from lib.core import Ctx, run_check
-from lib.tlc import MachineryError, WORK
+from lib.tlc import MachineryError, WORK, VERIF as VERIF_ROOT
+REPO = os.environ.get("VERIF_REPO", "/repo")
 
 KINDS = ["recurrent-linear", "batched-log-module", "identity-single", "inplace-single", "shared-module-prev", "module-listed-spot", "whalley-wilmott", "black-scholes", "mlp-tanh"]
 
@@ -347,6 +349,33 @@ def argument_purity_sweep(ctx: Ctx) -> None:
     ctx.sections["public_computations_swept"] = len(calls)
 
 
+def repository_test_purity(ctx: Ctx) -> None:
+    """The repository's own feature / instrument / hedger tests run under lib/recorder_plugin.py: every read-only public call
+    (Feature.get, payoff, compute_hedge/portfolio/pl) is bracketed by content hashes of the buffers of the instruments involved."""
+    import os
+    import subprocess
+    import sys
+    out = WORK / ctx.pid / "repo_purity.json"
+    out.parent.mkdir(parents=True, exist_ok=True)
+    env = dict(os.environ, PYTHONPATH=str(VERIF_ROOT) + ":" + REPO, PFHEDGE_VERIF_TRACE=str(out))
+    files = ["tests/features"] if ctx.tier == "quick" else ["tests/features", "tests/instruments", "tests/nn/modules/test_hedger.py", "tests/test_examples.py"]
+    proc = subprocess.run([sys.executable, "-m", "pytest", "-q", "-p", "no:cacheprovider", "-p", "lib.recorder_plugin", "-m", "not gpu", "-q"] + files,
+                          cwd=REPO, env=env, capture_output=True, text=True, timeout=1800)
+    if not out.exists():
+        raise MachineryError("recorder plugin produced no trace:\n" + proc.stdout[-800:] + proc.stderr[-800:])
+    events = json.loads(out.read_text())["purity"]
+    judged = [e for e in events if e["ok"] and e["n_buffers"] > 0]
+    if len(judged) < 50:
+        raise MachineryError(f"only {len(judged)} read-only calls with buffers were recorded in the repository's tests")
+    for e in judged:
+        ctx.count(n=1)
+        ctx.traces_validated += 0
+        if e["changed"]:
+            ctx.violation(f"repo-test-purity:{e['op']}:{e['cls']}", f"in the repository's own test {e['test']}, {e['cls']}.{e['op']} changed the simulated buffer(s) {e['changed']}", e)
+    ctx.sections["repository_test_readonly_calls_judged"] = len(judged)
+    ctx.sample({"repository_test_call": judged[0]})
+
+
 def check(ctx: Ctx) -> None:
     warnings.filterwarnings("ignore")
     ex = ctx.tlc("MC_Session", "MC_Session_q_d3.cfg" if ctx.tier == "quick" else "MC_Session_t_d4.cfg", workers=8)
@@ -409,6 +438,7 @@ def check(ctx: Ctx) -> None:
     if line2 is not None:
         ctx.selftest("a repeated computation with a different result is rejected at that line", v[-1][1] == line2 + 1)
     argument_purity_sweep(ctx)
+    repository_test_purity(ctx)
     ctx.exhaustive = False
     ctx.rule = ("spec->code: every 9th history of length 3 (exhaustive set) and simulated histories of length 9, each on one of 6 hedger kinds, buffers hashed after every "
                 "operation and results compared with a fresh hedger; code->spec: recorded random sessions validated by SessionTrace.tla; plus an argument-purity sweep over the public API")
